@@ -1,7 +1,7 @@
 #!/usr/bin/env python3
 """Must-fail self test of the thorough tier.
 
-For every stored seeded change whose meta.json records that this property's check catches it,
+For every stored seeded change whose meta.json lists this property under caught_by,
 copy /repo's working tree to a scratch directory, apply the change, run the quick check there
 (outputs redirected to the scratch directory) and expect exit 1. The outcome is added to the
 evidence file of the real run under coverage.must_fail_corpus. A seed that no longer applies
@@ -16,8 +16,7 @@ verif = os.path.dirname(os.path.dirname(os.path.abspath(__file__)))
 seeds = []
 for meta in sorted(glob.glob(os.path.join(verif, "seeded", "*", "meta.json"))):
     d = json.load(open(meta))
-    det = d.get("detected_by") or ""
-    if prop in det.replace(",", " ").replace("(", " ").split():
+    if prop in (d.get("caught_by") or []):
         seeds.append(os.path.dirname(meta))
 results = []
 t0 = time.time()
